@@ -1,14 +1,17 @@
 import TexelVerif.Drv.TT
+import TexelVerif.Drv.Proto
 /-! Line-protocol driver: one operation per stdin line, one canonical reply line.
     Imports model files only (no proofs, no Mathlib), so it links as a `lean_exe`. -/
 
 structure DrvState where
   tt : TT.Table := default
+  proto : Drv.Proto.PState := {}
 
 def dispatch (st : DrvState) (line : String) : DrvState × String :=
   let toks := (line.trimAscii.toString.splitOn " ").filter (· ≠ "")
   match toks with
   | "tt" :: args => let (t, o) := Drv.TT.step st.tt args; ({ st with tt := t }, o)
+  | "proto" :: args => let (t, o) := Drv.Proto.step st.proto args; ({ st with proto := t }, o)
   | _ => (st, "bad-op")
 
 partial def loop (h : IO.FS.Stream) (out : IO.FS.Stream) (st : DrvState) : IO Unit := do
